@@ -15,6 +15,8 @@ INJECT = [
     ("position", "decoder/adsb/position.rs", "mod vh;", "decoder/adsb/position/vh",
      "decoder::adsb::position::vh"),
     ("counters", "counters.rs", "mod vh;", "counters/vh", "counters::vh"),
+    ("update_position", "decoder/plane/update_position.rs", "mod vh;", "decoder/plane/update_position/vh",
+     "decoder::plane::update_position::vh"),
 ]
 CFG_GUARD = "#[cfg(any(kani, verif_replay))]"
 
@@ -131,7 +133,8 @@ def select(harnesses, prop, tier, seed, only):
     if only:
         return [h for h in sel if h.name in only]
     if tier == "thorough":
-        return sel
+        # tier=manual: kept for the record (e.g. whole-range queries that do not finish); only via --only
+        return [h for h in sel if h.prop_tier.get(prop, h.tier) != "manual"]
     quick = [h for h in sel if h.prop_tier.get(prop, h.tier) == "quick"]
     # families: the quick tier runs `quickpick` seeded members of each family (each member is
     # still decided by the solver over its whole domain); thorough runs all members
@@ -514,7 +517,8 @@ def main(argv):
     # the unrewritten twin for native replay is taken at the same moment (same /repo state)
     replayer = Replayer(scratch, kf, [])
     replayer.ensure()
-    logdir = os.path.join(VERIF, "logs", prop if not only else f"{prop}-only-{os.getpid()}")
+    unique = bool(only) or "VERIF_REPO" in os.environ  # concurrent mutation runs of one property must not share a log dir
+    logdir = os.path.join(VERIF, "logs", prop if not unique else f"{prop}-run-{os.getpid()}")
     shutil.rmtree(logdir, ignore_errors=True)
     os.makedirs(logdir, exist_ok=True)
 
@@ -599,7 +603,13 @@ def main(argv):
             log(f"[{h.name}] {verdict.upper()} {reason} ({dt:.0f}s wall, solver {res['solver_s']}s, "
                 f"{res['checks_total']} checks, cover {res['cover_sat']}/{res['cover_total']})")
 
-    threads = [threading.Thread(target=worker, args=(i,)) for i in range(jobs)]
+    def safe_worker(wi):
+        try:
+            worker(wi)
+        except Exception as ex:  # never lose a harness silently
+            log(f"[worker {wi}] crashed: {ex!r}")
+
+    threads = [threading.Thread(target=safe_worker, args=(i,)) for i in range(jobs)]
     for t in threads:
         t.start()
     for t in threads:
@@ -611,6 +621,8 @@ def main(argv):
     known_by_key = {}
     os.makedirs(os.path.join(VERIF, "replays", prop), exist_ok=True)
     for h in sel:
+        if h.name not in results:
+            results[h.name] = {"verdict": "inconclusive", "reason": "worker crashed before a verdict", "res": parse_kani_log(""), "wall_s": 0.0}
         r = results[h.name]
         if r["verdict"] == "skipped":
             continue
